@@ -127,3 +127,51 @@ MANIFEST_TEXT = {
     ],
     "notes": "Technique family: deterministic simulation with fault injection. One integer (VERIF_SEED + run index) seeds a choice tape that decides every generated object, operation, schedule and fault; every process runs under PYTHONHASHSEED=0; a violation is minimised by tape shrinking, written to replays/, and confirmed in a fresh interpreter before it is reported. Exit 2 + HARNESS-ERROR is never a verdict. Five genuine defects of the pinned tree were found and repaired in /repo (five 'fix:' commits); two are listed as known findings (dask.array.fft shape rule for irfft2/irfftn on a length-1 axis; baseband.open not thread-safe under concurrent reads without lock=): known_findings.json. Seventeen properties are pure functions of their arguments and are listed as not applicable (DESIGN.md section 6). ./selftest determinism and ./selftest sensitivity (15 hand-made mutants, 43 changes seeded by blind sub-agents) are the self-tests; DESIGN.md section 10 records what was missed on first contact and how it was closed.",
 }
+
+
+CONFIG["C11"] = {
+    "level": "exploration",
+    "engine": "B (simulated caller threads + I/O seam), A for Dask reads",
+    "technique": "deterministic simulation with fault injection: baton-passed caller threads pre-empted at every line of reader code and every file-handle call, I/O seam with injected errors and killed callers, in-memory reference model of each file",
+    "design_ref": "DESIGN.md section 4 and section 6 (C11)",
+    "level_text": ("Seeded search over interleavings of 1-4 simulated caller threads (pre-emption at every line of "
+                   "pulsarbat/readers and utils code and at open/seek/read/close), call histories (eager, Dask under the "
+                   "simulated cluster, multi-output, pickled clones, client mutations, adjacent reads, round trips, "
+                   "out-of-range requests) and I/O fault sequences; each completed call is compared with a reference model "
+                   "of the file as the run proceeds and the history is checked afterwards. Sampling: the interleaving "
+                   "space is unbounded."),
+    "level_note": ("Trusted: baseband's decoding of the bytes on disk (the model is a direct baseband read mapped by the "
+                   "documented axis/sideband rules, cross-checked against the arrays the check wrote); dependency code is "
+                   "atomic between yield points; Hilbert-path values compared with an independent O(N^2) long-double "
+                   "DFT within 64 eps(float32) log2(N) max|x|."),
+    "shrink_runs": 1500,
+    "shrink_seconds": 150,
+    "max_shrink_groups": 4,
+    "quick_runs": 7000,
+    "thorough_runs": 60000,
+    "quick_wall_cap": 400,
+    "thorough_wall_cap": 3000,
+    "block": 8,
+    "rule": ("A case is one seeded run. Scenarios 'files' and 'files_faults' (2 of 5 runs each): 1-2 readers on "
+             "files drawn from the four repository sample files and eleven synthesised file kinds (VDIF real/complex "
+             "1-8 threads 2/8 bit, DADA complex/real/multi-file, multi-file GUPPI with OBSBW of either sign and "
+             "LIN/CIRC, DADA Stokes with BW of either sign and even/odd channel counts; sideband flags "
+             "none/all/mask given as bool array, bool list, int list or integer array; documented defaults "
+             "sometimes omitted; pairs of sibling files or the same file with different options), 1-4 (6) "
+             "simulated caller threads each running 1-6 (10) calls (read, dask_read and multi-output Dask reads "
+             "under the simulated cluster, reads through pickle/cloudpickle/copy/deepcopy clones, adjacent reads, "
+             "round trips, out-of-range requests, a read after the client overwrote an earlier result), a switch "
+             "probability, optional shared client lock, optional stalls; with faults: OSError at open/seek/read "
+             "(entry or mid-read)/close and killed callers. Scenario 'store' (1 of 5): BaseReader through a "
+             "harness subclass over a virtual store, sample rates 1 mHz-2 GHz, lengths to 2e9, any signal "
+             "class, with or without start time. Non-trivial = at least two recorded calls; distinct = distinct "
+             "SHA-256 of the event log (case, every call's arguments/outcome/result hash in global order)."),
+    "assumptions": [
+        "pre-emption points are line events of pulsarbat/readers/* and pulsarbat/utils.py plus every call through the I/O seam; baseband/NumPy code is atomic between them",
+        "short reads and flipped bytes are not injected: the stream-reader contract excludes short reads and the formats carry no checksum",
+        "for lower-sideband GUPPI the model demands conjugation and stored channel order only",
+        "a call hit by an injected fault may raise anything but must not return wrong data; calls not hit must behave as in the fault-free configuration",
+    ],
+    "real_vs_stub": {"real": ["pulsarbat readers (current working tree)", "baseband decoding", "files on a real file system", "numpy", "real_to_complex", "dask graph construction and dask.local core for Dask reads", "cloudpickle"],
+                     "stub": ["who runs next (baton scheduler)", "file-handle proxy (pass-through + faults)", "SimLock", "executor for Dask reads", "block store behind SimStoreReader"]},
+}
